@@ -3,7 +3,9 @@ from common import *
 import vm_corr, vm_checks, gc_corr
 
 PROP_MODULE = "NeverModel.Props.C04"
-REQUIRED = ["Never.C04.collect_preserves_reachable", "Never.C04.collect_leaves_registers"]
+REQUIRED = ["Never.C04.collect_preserves_reachable", "Never.C04.collect_leaves_registers", "Never.C04.collect_preserves_edges",
+            "Never.C04.collect_preserves_liveness", "Never.C04.collect_preserves_reachable_graph", "Never.C04.collect_twice_defined",
+            "Never.C04.collect_twice_same_objects", "Never.C04.collect_keeps_wellTyped"]
 
 def outcome_key(r, io):
     """the observable of the property: result, printed text, exception / error"""
